@@ -191,6 +191,10 @@ template<typename Alloc>
 void splinetable<Alloc>::read_fits_data(fitsfile* fits, const std::string& filePath){
 	int error = 0;
 	
+	//An empty table can still own auxiliary keys (write_key does not need
+	//data). They are replaced by the keys of the file, so give them back.
+	release();
+	
 	//Set the HDU and check its type
 	{
 		int hdus, type;
